@@ -679,6 +679,14 @@ func (x *Exec) Run() {
 	}
 	x.installTypeInvariantHook()
 	s := x.entryState()
+	if x.isPkgInit() && x.fn.Pkg != nil {
+		// the initialiser runs once: its guard is still false
+		if g, ok := x.fn.Pkg.Members["init$guard"].(*ssa.Global); ok {
+			if pv, ok := x.val(s, g).(*PtrV); ok && pv.Obj != nil {
+				s.heap[pv.Obj.id] = TFalse
+			}
+		}
+	}
 	env := x.specEnv(s, nil)
 	// global invariants of every package with a spec are assumed
 	x.assumeGlobalInvariants(s)
@@ -804,6 +812,10 @@ func (x *Exec) assumeGlobalInvariants(s *State) {
 	sort.Strings(pkgs)
 	for _, p := range pkgs {
 		ps := x.P.Specs[p]
+		if x.isPkgInit() && x.fn.Pkg != nil && x.fn.Pkg.Pkg.Path() == p {
+			// the package initialiser establishes its package's invariants
+			continue
+		}
 		for _, gi := range ps.GlobalInvs {
 			env := x.specEnv(s, nil)
 			env.pkgPath = p
@@ -979,6 +991,18 @@ func (x *Exec) atReturn(s *State, ret Val) {
 			}
 		}
 	}
+	if x.isPkgInit() && x.fn.Pkg != nil {
+		if ps := x.P.Specs[x.fn.Pkg.Pkg.Path()]; ps != nil {
+			for i, gi := range ps.GlobalInvs {
+				env := x.specEnv(s, nil)
+				lbl := gi.Label
+				if lbl == "" {
+					lbl = fmt.Sprintf("%d", i+1)
+				}
+				x.oblige(s, "post", "global-invariant:"+lbl, env.evalBool(gi.Expr), nil, gi.Src)
+			}
+		}
+	}
 	if x.c == nil {
 		return
 	}
@@ -1030,6 +1054,9 @@ func (x *Exec) atReturn(s *State, ret Val) {
 			rec := s.writes[k]
 			if !rec.obj.pre || rec.obj.kind == "chan" || rec.obj.name == "ghost:fs" || strings.HasPrefix(k, "ghost:") {
 				continue
+			}
+			if strings.HasSuffix(rec.obj.name, "init$guard") {
+				continue // the compiler's run-once flag of a package initialiser
 			}
 			if coveredBy(rec, allowed) {
 				continue
@@ -1139,6 +1166,7 @@ func (x *Exec) runBlock(s *State, b *ssa.BasicBlock, pred *ssa.BasicBlock) {
 			}
 			x.checkInvariants(s, li, "inv-pres", b)
 			x.checkLoopTypeInvs(s, li, "inv-pres")
+			x.checkSteps(s, li)
 			return
 		}
 		x.checkInvariants(s, li, "inv-init", b)
@@ -1336,7 +1364,35 @@ func (x *Exec) enterLoop(s *State, li *loopInfo, b *ssa.BasicBlock, pred *ssa.Ba
 			env.assumeEnsures(inv.Expr, nil, nil)
 		}
 	}
+	if li.spec != nil && len(li.spec.Steps) > 0 && !s.dead {
+		if s.heads == nil {
+			s.heads = map[*loopInfo]*State{}
+		}
+		s.heads[li] = s.clone()
+	}
 	return !s.dead
+}
+
+// checkSteps: the step clauses of a loop at a back edge.
+func (x *Exec) checkSteps(s *State, li *loopInfo) {
+	if li.spec == nil || len(li.spec.Steps) == 0 || len(x.dry) > 0 {
+		return
+	}
+	head := s.heads[li]
+	if head == nil {
+		x.errorf("step clause: no head snapshot for loop %d", li.ordinal)
+		return
+	}
+	env := x.specEnvFrame(s)
+	env.prev = head
+	for i, st := range li.spec.Steps {
+		lbl := st.Label
+		if lbl == "" {
+			lbl = fmt.Sprintf("%d", i+1)
+		}
+		t := env.evalBool(st.Expr)
+		x.oblige(s, "inv-pres", fmt.Sprintf("%sloop%d/step:%s", s.top().prefix, li.ordinal, lbl), t, nil, st.Src)
+	}
 }
 
 func (x *Exec) havocLoopState(s *State, li *loopInfo, b *ssa.BasicBlock, writes map[string]writeRec, tag string) {
@@ -2870,4 +2926,8 @@ func carriesLabel(ci *ChanInvDecl) (string, bool) {
 		return strings.Trim(l.Value, "\"`"), true
 	}
 	return "", false
+}
+
+func (x *Exec) isPkgInit() bool {
+	return x.fn != nil && x.fn.Synthetic == "package initializer"
 }
